@@ -15,6 +15,12 @@ produced, and `check C03` compares it with the real type checker.  Results:
 * `.error (.panic site)` — a Rust panic (an `assert!`, an `unwrap()` on `Err`, an index out of range);
 * `.error (.unsupported what)` — the input leaves the modelled subset (enums inside operators).
 
+Structure: the helpers `elabUn`, `elabArith` (`arithTarget`, `arithBuild`), `elabAssign`, `elabTern` (`ternTargets`,
+`ternBuild`), `elabCall` (`castArgs`) mirror the body of the corresponding Rust function *after* its operands
+have been elaborated and return the node they build together with the `ExpressionType` the Rust code returns for
+it; `elabE` (= `parse_expr_internal`) elaborates the operands in source order, calls the helper and runs the
+debug-build type query on the new node (`selfCheck`).
+
 `dbg` is `cfg(debug_assertions)`: in debug builds `parse_expr_internal` re-derives the type of **every** node it
 builds with `Expression::get_type` and asserts it equals the computed one (`selfCheck`); in release builds only
 `parse_expr` (one per statement / initialiser / return) does.  The harness is a debug build, so the
